@@ -600,6 +600,7 @@ type Exec struct {
 	nameCount map[string]int
 	nowVals  []*Val
 	insertOnlyN int
+	nilResetN   int
 	loopOrdMax  int // highest loop ordinal met while executing the function under verification
 	tickerRefs []string // tickers created so far by the function under verification
 	lockCheck bool
